@@ -250,7 +250,12 @@ class MemoryFileSystem(FileSystem):
     self._prefix = prefix
 
   def _internal_path(self, path: Union[str, os.PathLike[str]]) -> str:
-    return '/' + resolve_path(path).lstrip(self._prefix)
+    path = resolve_path(path)
+    # NOTE: remove the prefix as a whole (`str.lstrip` strips characters).
+    prefix = self._prefix.rstrip('/')
+    if path == prefix or path.startswith(prefix + '/'):
+      path = path[len(prefix):]
+    return '/' + path.lstrip('/')
 
   def _locate(self, path: Union[str, os.PathLike[str]]) -> Any:
     current = self._root
